@@ -29,7 +29,7 @@ RULE = ("(expression, model) pairs: expression depth<=2 over attributes {package
         "types {Package, Cls, Attr, Model}, fixed names from the name pool, flags ''/+p:; model: generated package tree "
         "(depth<=3) - evaluated from every object with every 1-3 part name over {a,b,c,d,zz} (direct), and once end to end "
         "in a grammar. non-trivial: expression has * or , or ^ and the evaluation yields a final state for some (start, "
-        "name) with >=2 name parts; distinct by canonical JSON")
+        "name) with >=2 name parts; also: (3) one provider object registered for two attributes with different name separators, (4) a fixed grammar family navigating through a reference list (~extends*) whose entries resolve in different passes (aliases declared later); distinct by canonical JSON")
 ASSUMPTIONS = [
     "names are unique within one collection (the implementation takes the first of equal names - unspecified)",
     "expressions whose leading starred bracket mixes root-started and locally-started paths are excluded and counted",
